@@ -632,7 +632,7 @@ func TestC16_TicketTampering(t *testing.T) {
 		n++
 		suite := rapid.SampledFrom([]uint16{tlsx.GMECCSM4CBCSM3, tlsx.GMECCSM4GCMSM3}).Draw(t, "suite")
 		is := get(suite, fmt.Sprint(n))
-		kind := rapid.SampledFrom([]string{"genuine", "byte", "byte", "truncate", "extend", "empty", "other_session"}).Draw(t, "kind")
+		kind := rapid.SampledFrom([]string{"genuine", "byte", "byte", "truncate", "extend", "empty", "other_session", "suite_not_offered"}).Draw(t, "kind")
 		tk := append([]byte{}, is.ticket...)
 		want := false
 		switch kind {
@@ -647,6 +647,28 @@ func TestC16_TicketTampering(t *testing.T) {
 			tk = append(tk, rapid.SliceOfN(rapid.Byte(), 1, 20).Draw(t, "ext")...)
 		case "empty":
 			tk = []byte{}
+		case "suite_not_offered":
+			// a genuine ticket, but the client no longer offers the session's suite: the server (which supports both
+			// suites) must fall back to a full handshake with the suite that is offered
+			other := tlsx.GMECCSM4CBCSM3
+			if suite == other {
+				other = tlsx.GMECCSM4GCMSM3
+			}
+			sc := tlsx.GMServer(p, fmt.Sprint("sno", n))
+			sc.SetSessionTicketKeys([][32]byte{keyN(7)})
+			sc.CipherSuites = []uint16{suite, other}
+			r := tlsx.RunAgainstScriptedClient(sc, rgmssl.ClientOpts{Suites: []uint16{other}, SessionTicket: is.ticket, SessionID: []byte{5}, ResumeMaster: is.master, Send: []byte("hi")}, nil, fmt.Sprint("sno", n), []byte("yo"))
+			if r.GM.Panic != nil {
+				t.Fatalf("server panicked: %s", r.GM.Panic)
+			}
+			if r.Peer.Resumed || r.GM.State.DidResume {
+				t.Fatalf("server RESUMED a session whose suite %x the client does not offer (offered %x)", suite, other)
+			}
+			if r.GM.HSErr != nil || r.PeerErr != nil || r.GM.State.CipherSuite != other {
+				t.Fatalf("no silent fall-back to a full handshake with the offered suite: server hs=%v suite=%x, client err=%v log=%v", r.GM.HSErr, r.GM.State.CipherSuite, r.PeerErr, r.Peer.Log)
+			}
+			R.Case(true, hx.HashKey("tk", kind, n), "ticket:"+kind, "must_not_resume")
+			return
 		case "other_session":
 			// a genuine ticket of another session, offered while claiming this session's master secret
 			other := get(suite, fmt.Sprint(n, "o"))
